@@ -131,6 +131,9 @@ func init() {
 			err = xml.Unmarshal([]byte(`<Date>`+string(text)+`</Date>`), &x)
 			res = append(res, back(x, err))
 		}
+		// the extended text must parse under RuleDisableBasic too (string and reused []byte)
+		res = append(res, back(date.DefaultParser(string(fe), date.RuleDisableBasic)))
+		res = append(res, back(date.DefaultParser(reused(fe), date.RuleDisableBasic)))
 		e["back"] = res
 		return e
 	}
